@@ -230,7 +230,10 @@ class Translator:
             if mm.group(1) != mm.group(3):
                 raise TranslateError('part name mismatch')
             self.parts.append((mm.group(1), self.tok(mm.group(2)), self.kind(mm.group(4))))
-        em = re.search(r'self\.error\(diags, err!\[self, ' + STR + r'\]\);\s*let error_tree', t)
+        # the trailing-input diagnostic of parse_rule (whatever way it is reported: the model reports it
+        # through error(); a different way shows up as a behavioural disagreement, not as a translation failure)
+        pr = re.search(r'fn parse_rule<.*?\n    \}\n', t, re.S)
+        em = re.search(r'err!\[self, ' + STR + r'\]', pr.group(0)) if pr else None
         if not em:
             raise TranslateError('no trailing-input message')
         self.msg_eof = self.msg(em.group(1))
